@@ -3,6 +3,7 @@ package lossy
 import (
 	"github.com/deepteams/webp/internal/bitio"
 	"github.com/deepteams/webp/internal/verifapi"
+	ref "github.com/deepteams/webp/internal/verifref/vp8"
 )
 
 // vNewTokenEncoder builds the encoder state the token-recording drivers need, directly.
@@ -143,4 +144,29 @@ func VerifH_C06_SegmentMap(n, rest int) {
 			}
 		}
 	}
+}
+
+// VerifH_C06_QuantTwins: the quantiser steps the ENCODER divides and reconstructs with (setupSegment)
+// are the dequantisation factors a decoder derives from the header values the encoder writes
+// (quantiser index q of the segment and the five deltas): reference decoder's factors
+// (x/image/vp8 quant.go, RFC 6386 14.1; this package's own ParseQuant is tied to the same reference by
+// VerifH_C04_Quant). Otherwise encoder reconstruction and decoder output drift apart.
+func VerifH_C06_QuantTwins(seg int) {
+	enc := &VP8Encoder{}
+	q := int(verifapi.U8("q"))
+	verifapi.Assume(q <= 127)
+	d := func(name string) int {
+		v := int(int8(verifapi.U8(name)))
+		verifapi.Assume(v >= -15 && v <= 15) // 4-bit magnitude + sign in the frame header
+		return v
+	}
+	enc.dqY1DC, enc.dqY2DC, enc.dqY2AC, enc.dqUVDC, enc.dqUVAC = d("dq_y1_dc"), d("dq_y2_dc"), d("dq_y2_ac"), d("dq_uv_dc"), d("dq_uv_ac")
+	setupSegment(enc, seg, q)
+	want := ref.VerifDequant(int32(q), int32(enc.dqY1DC), int32(enc.dqY2DC), int32(enc.dqY2AC), int32(enc.dqUVDC), int32(enc.dqUVAC))
+	s := &enc.dqm[seg]
+	verifapi.Assert(s.Y1.DCQuant == int(want[0]) && s.Y1.Quant == int(want[1]), "luma DC/AC step = decoder's factor")
+	verifapi.Assert(s.Y2.DCQuant == int(want[2]) && s.Y2.Quant == int(want[3]), "second-order luma DC/AC step = decoder's factor")
+	verifapi.Assert(s.UV.DCQuant == int(want[4]) && s.UV.Quant == int(want[5]), "chroma DC/AC step = decoder's factor")
+	verifapi.Assert(s.Quant == q, "segment quantiser index recorded for the header")
+	verifapi.Cover(true, "compared")
 }
